@@ -111,6 +111,26 @@ static void bc_event(int dec, const uint8_t *key, size_t kl, const uint8_t *iv, 
 	fin(err, over(out, cap));
 }
 
+/* the same call with the result written over the input (out == in) */
+static void bc_event_inplace(int dec, const uint8_t *key, size_t kl, const uint8_t *iv, const uint8_t *in, size_t n,
+		size_t cap, uint8_t *out) {
+	static uint8_t saved[MAXB];
+	int err, ret = -1;
+	size_t ol = cap;
+	if (n > cap || n > MAXB) return;
+	memcpy(saved, in, n);
+	arm(out, cap);
+	memcpy(out, saved, n);
+	hdr(dec ? "bc_aes_cbc_dec" : "bc_aes_cbc_enc");
+	vh_bytes("key", key, kl); vh_bytes("iv", iv, 16); vh_bytes("msg", saved, n); vh_int("cap", (long)cap); vh_int("inplace", 1);
+	if (dec) VH_TRY(err, ret = bc_aes_cbc_dec(out, &ol, out, n, key, kl, iv));
+	else VH_TRY(err, ret = bc_aes_cbc_enc(out, &ol, out, n, key, kl, iv));
+	vh_int("ret", ret);
+	vh_int("olen", (long)ol);
+	vh_bytes("out", out, (ret == RLC_OK && ol <= cap) ? ol : 0);
+	fin(err, over(out, cap));
+}
+
 static void do_bc(int which) {
 	size_t kl = vh_hex2bytes(vh_tok[1], K, MAXB, NULL);
 	uint8_t iv[16];
@@ -129,6 +149,7 @@ static void do_bc(int which) {
 			(void)vh_code();
 			memcpy(M, OUT2, ol);
 			bc_event(1, K, kl, iv, M, ol, ol + 16, OUT);
+			bc_event_inplace(1, K, kl, iv, M, ol, ol + 16, OUT);
 			break;
 		case 3: /* crafted final block */
 			ol = n + 32;
